@@ -40,6 +40,7 @@
 #define BLOCK(s)  BLOCK_ (s, CAP_N)
 #define BLOCKM(s) BLOCK_ (s, CAP_M)
 
+#define INV_(s, N) (WF_ (s, N) && CELLS (s) && BLOCK_ (s, N))
 #define INV(s)  (WF (s) && CELLS (s) && BLOCK (s))
 #define INVM(s) (WFM (s) && CELLS (s) && BLOCKM (s))
 
@@ -119,7 +120,7 @@
 /* elements [from, size ()) are copies of the entry value of *val (value watched by WP[1]) */
 #define TAIL_FILLED(s, from, val) FILLED_IDX (DATA (s), from, SZ (s), val)
 /* growth (C14): a changed capacity is at least the needed size and at least 1.5x the old one, saturating at max_size () */
-#define GROWTH(s, needed) IMPLIES (CAP (s) != OCAP (s), CAP (s) >= (needed) && (CAP (s) - OCAP (s) >= (OCAP (s) >> 1) || CAP (s) == MAXSZ))
+#define GROWTH(s, needed) IMPLIES (CAP (s) != OCAP (s), CAP (s) >= (needed) && CAP (s) > OCAP (s) && (CAP (s) - OCAP (s) >= (OCAP (s) >> 1) || CAP (s) == MAXSZ))
 /* no reallocation (C10) */
 #define NO_REALLOC(s) (DATA (s) == ODATA (s) && CAP (s) == OCAP (s) && alloc_calls == __CPROVER_old (alloc_calls) && dealloc_calls == __CPROVER_old (dealloc_calls))
 
